@@ -24,6 +24,9 @@ import (
 	"github.com/oasisprotocol/oasis-core/go/common/crypto/signature"
 	"github.com/oasisprotocol/oasis-core/go/common/identity"
 	"github.com/oasisprotocol/oasis-core/go/common/logging"
+	"github.com/oasisprotocol/oasis-core/go/common/persistent"
+	"github.com/oasisprotocol/oasis-core/go/upgrade"
+	upgradeAPI "github.com/oasisprotocol/oasis-core/go/upgrade/api"
 	"github.com/oasisprotocol/oasis-core/go/consensus/cometbft/abci"
 	cmtapi "github.com/oasisprotocol/oasis-core/go/consensus/cometbft/api"
 	beaconApp "github.com/oasisprotocol/oasis-core/go/consensus/cometbft/apps/beacon"
@@ -109,6 +112,10 @@ type Node struct {
 	// CommitLock, if set, is held around Commit (CometBFT holds the mempool lock
 	// during Commit, so no CheckTx overlaps it).
 	CommitLock sync.Locker
+
+	upg      upgradeAPI.Backend
+	upgStore *persistent.CommonStore
+	upgDir   string
 }
 
 // PruneKeep > 0 configures replicas created afterwards with the keep-last-N
@@ -136,7 +143,33 @@ func NewNode(doc *genesis.Document, ident *identity.Identity, backend, dir strin
 		InitialHeight:       doc.Height,
 		ChainContext:        doc.ChainContext(),
 	}
-	srv, err := abci.NewApplicationServer(ctx, nil, cfg)
+	// A node-local upgrade backend (the real manager over its persistent store) for worlds that ask for one:
+	// the governance application submits / cancels / looks up pending upgrades there while executing blocks.
+	var upg upgradeAPI.Backend
+	var upgStore *persistent.CommonStore
+	upgDir := ""
+	if _, ok := upgraderDocs.Load(doc); ok {
+		ud := dir
+		if ud == "" {
+			var err error
+			if ud, err = os.MkdirTemp("", "verif-upgrader"); err != nil {
+				cancel()
+				return nil, err
+			}
+			upgDir = ud
+		}
+		var err error
+		if upgStore, err = persistent.NewCommonStore(ud); err != nil {
+			cancel()
+			return nil, err
+		}
+		if upg, err = upgrade.New(upgStore, ud, true); err != nil {
+			upgStore.Close()
+			cancel()
+			return nil, err
+		}
+	}
+	srv, err := abci.NewApplicationServer(ctx, upg, cfg)
 	if err != nil {
 		cancel()
 		return nil, err
@@ -183,7 +216,7 @@ func NewNode(doc *genesis.Document, ident *identity.Identity, backend, dir strin
 		cancel()
 		return nil, err
 	}
-	n := &Node{Doc: doc, Backend: backend, Dir: dir, Srv: srv, Mux: srv.Mux(), ident: ident, cancel: cancel, Sanity: withSanity}
+	n := &Node{Doc: doc, Backend: backend, Dir: dir, Srv: srv, Mux: srv.Mux(), ident: ident, cancel: cancel, Sanity: withSanity, upg: upg, upgStore: upgStore, upgDir: upgDir}
 	return n, nil
 }
 
@@ -228,7 +261,21 @@ func (n *Node) Close() {
 	n.Srv.Cleanup()
 	n.cancel()
 	abci.VerifReleaseState(n.Srv)
+	if n.upg != nil {
+		n.upg.Close()
+	}
+	if n.upgStore != nil {
+		n.upgStore.Close()
+	}
+	if n.upgDir != "" {
+		_ = os.RemoveAll(n.upgDir)
+	}
 }
+
+var upgraderDocs sync.Map
+
+// EnableUpgrader makes replicas of this genesis document run with a node-local upgrade backend.
+func EnableUpgrader(doc *genesis.Document) { upgraderDocs.Store(doc, true) }
 
 // InitChain runs InitChain with the genesis document.
 func (n *Node) InitChain() (err error) {
